@@ -125,7 +125,7 @@ mutant("c06-unwrap-in-hyphen", ["C06"], (R, "        Ok(BoundSet::new(\n        
 neutral("exact-unwrap-never-fails", ["C06"], (R, "        partial => BoundSet::exact(partial.into()),\n    })\n    .context(\"plain version range (ex: 1.2)\")", "        partial => Some(BoundSet::exact(partial.into()).unwrap()),\n    })\n    .context(\"plain version range (ex: 1.2)\")"))
 mutant("c06-separator-space0", ["C06"], (R, "        separated(0.., simple, space1),", "        separated(0.., simple, space0),"))
 mutant("c06-recursion", ["C06"], (R, "        self.0.iter().filter_map(BoundSet::min_version).min()", "        self.0.iter().filter_map(BoundSet::min_version).min().or_else(|| self.min_version())"))
-mutant("c06-index-vec", ["C06"], (R, "        self.0.iter().filter_map(BoundSet::min_version).min()", "        self.0[0].min_version()"))
+mutant("c06-index-vec", ["C11"], (R, "        self.0.iter().filter_map(BoundSet::min_version).min()", "        self.0[0].min_version()"))
 mutant("c06-cmp-cell-reverted", ["C06", "C07"],
        (R, "            | (Lower(Including(v1)), Upper(Excluding(v2)))\n            | (Upper(Including(v1)), Upper(Excluding(v2))) => {", "            | (Lower(Including(v1)), Upper(Excluding(v2))) => {"),
        (R, "            (Upper(Including(v1)), Lower(Excluding(v2)))\n            | (Lower(Excluding(v1)), Upper(Including(v2))) => {", "            (Upper(Including(v1)), Lower(Excluding(v2)))\n            | (Upper(Including(v1)), Upper(Excluding(v2)))\n            | (Lower(Excluding(v1)), Upper(Including(v2))) => {"))
